@@ -97,7 +97,7 @@ func cmdLocal(args []string) {
 	cancelGroups := fs.Int("cancel-groups", 1, "how many of the groups may be cancel groups (-1 = no limit)")
 	par := fs.Int("par", 6, "groups run concurrently")
 	only := fs.String("only", "", "run only the group with this key (replay)")
-	endDeadline := fs.Duration("end-deadline", 20*time.Second, "stream must end this long after completion")
+	endDeadline := fs.Duration("end-deadline", 30*time.Second, "stream must end this long after completion")
 	_ = fs.Parse(args)
 	res := &Result{}
 	defer res.write(*out)
